@@ -4,3 +4,4 @@ import MirGen.EvalPrograms
 import MirGen.Effects
 import MirGen.ChordRe
 import MirGen.Scalars
+import MirGen.Defaults
